@@ -37,7 +37,7 @@ def FitsBmp (k : Kind) (w h : Nat) : Prop :=
 theorem C18_bmp_rt (k : Kind) (inl : Bool) (w h : Nat) (data name : Bytes) (existing : List Bytes)
     (filters : List Flt) (hl : ∀ f ∈ filters, Lossless f)
     (hw1 : 1 ≤ w) (hh1 : 1 ≤ h) (hfit : FitsBmp k w h) (hlen : data.length = h * rowBytes k w) :
-    ∃ nm file, exportImage ⟨filters, csOfKind k inl, bpcOfKind k, w, h, name, data⟩ existing = .ok (nm, file) ∧
+    ∃ nm file, exportImage ⟨filters, csOfKind k inl, false, bpcOfKind k, w, h, name, data⟩ existing = .ok (nm, file) ∧
       nm ∉ existing ∧ (∃ stem, nm = stem ++ extBmp) ∧
       readBMP file = some (w, h, samplesRGB k w h data) := by
   obtain ⟨hdct, hjpx, hjb⟩ := lossless_getLast filters hl
@@ -67,7 +67,7 @@ theorem C18_samples_pixelwise (k : Kind) (w h : Nat) (data : Bytes) (hlen : data
 theorem C18_bmp_rt_pixelwise (k : Kind) (inl : Bool) (w h : Nat) (data name : Bytes) (existing : List Bytes)
     (filters : List Flt) (hl : ∀ f ∈ filters, Lossless f)
     (hw1 : 1 ≤ w) (hh1 : 1 ≤ h) (hfit : FitsBmp k w h) (hlen : data.length = h * rowBytes k w) :
-    ∃ nm file, exportImage ⟨filters, csOfKind k inl, bpcOfKind k, w, h, name, data⟩ existing = .ok (nm, file) ∧
+    ∃ nm file, exportImage ⟨filters, csOfKind k inl, false, bpcOfKind k, w, h, name, data⟩ existing = .ok (nm, file) ∧
       readBMP file = some (w, h, samplesRGBIdx k w h data) := by
   obtain ⟨nm, file, h1, _, _, h4⟩ := C18_bmp_rt k inl w h data name existing filters hl hw1 hh1 hfit hlen
   exact ⟨nm, file, h1, by rw [← samplesRGB_eq_idx k w h data hlen]; exact h4⟩
@@ -78,7 +78,7 @@ example : FitsBmp .rgb8 3 2 ∧ (List.replicate 18 (7 : UInt8)).length = 2 * row
   refine ⟨⟨by decide, by decide, by decide⟩, by decide⟩
 
 example :
-    (match exportImage ⟨[.flate], .rgb, 8, 3, 2, [73, 109, 48], (List.range 18).map UInt8.ofNat⟩ [[73, 109, 48, 46, 98, 109, 112]] with
+    (match exportImage ⟨[.flate], .rgb, false, 8, 3, 2, [73, 109, 48], (List.range 18).map UInt8.ofNat⟩ [[73, 109, 48, 46, 98, 109, 112]] with
      | .ok (nm, file) => (nm, readBMP file)
      | .error _ => ([], none)) =
     ([73, 109, 48, 46, 48, 46, 98, 109, 112], some (3, 2, (List.range 18).map UInt8.ofNat)) := by
@@ -98,7 +98,7 @@ theorem C18_bmp_pinned_cex :
 /-- **jpeg_bytes.** An image whose last filter is DCTDecode (gray or RGB; CMYK needs Pillow) is
     written unchanged — the file content is `stream.get_data()` — to a new `*.jpg` file. -/
 theorem C18_jpeg_bytes (im : ImgIn) (existing : List Bytes) (hd : im.filters.getLast? = some .dct)
-    (hcs : im.cs ≠ .cmyk) :
+    (hcs : im.cmykMember = false) :
     ∃ nm, exportImage im existing = .ok (nm, im.data) ∧ nm ∉ existing ∧ ∃ stem, nm = stem ++ extJpeg := by
   have hsome := uniqueName_isSome existing im.name extJpeg
   obtain ⟨nm, hnm⟩ := Option.isSome_iff_exists.mp hsome
@@ -108,7 +108,7 @@ theorem C18_jpeg_bytes (im : ImgIn) (existing : List Bytes) (hd : im.filters.get
     simp [hd, hcs, withName, hnm]
   · rw [hj]; exact candidate_suffix im.name extJpeg j
 
-example : ([Flt.a85, Flt.dct] : List Flt).getLast? = some .dct ∧ CS.rgb ≠ CS.cmyk := by decide
+example : ([Flt.a85, Flt.dct] : List Flt).getLast? = some .dct := by decide
 
 /-! ## Distinct images get distinct file names -/
 
@@ -164,8 +164,8 @@ theorem C18_unique_name_terminates (existing : List Bytes) (name ext : Bytes) :
 
 /-- Non-vacuity: three images called `Im0` give three different names. -/
 example :
-    (exportSeq [⟨[], .gray, 8, 1, 1, [73, 109, 48], [1]⟩, ⟨[.flate], .gray, 8, 1, 1, [73, 109, 48], [2]⟩,
-                ⟨[.dct], .gray, 8, 1, 1, [73, 109, 48], [3]⟩] []).map (·.1) =
+    (exportSeq [⟨[], .gray, false, 8, 1, 1, [73, 109, 48], [1]⟩, ⟨[.flate], .gray, false, 8, 1, 1, [73, 109, 48], [2]⟩,
+                ⟨[.dct], .gray, false, 8, 1, 1, [73, 109, 48], [3]⟩] []).map (·.1) =
       [[73, 109, 48, 46, 98, 109, 112], [73, 109, 48, 46, 48, 46, 98, 109, 112], [73, 109, 48, 46, 106, 112, 103]] := by
   decide +kernel
 
